@@ -63,7 +63,7 @@ fn proto_s(p: &ProtocolError) -> String {
         UnknownDataFrameType(i) => format!("UnknownDataFrameType:{i}"),
         ExpectedFragment(d) => format!("ExpectedFragment:{}", u8::from(OpCode::Data(*d))),
         InvalidOpcode(i) => format!("InvalidOpcode:{i}"),
-        InvalidHeader(h) => format!("InvalidHeader:{}", h.as_str()),
+        InvalidHeader(h) => format!("InvalidHeader:{}", hex(h.as_str().as_bytes())),
         HttparseError(_) => "HttparseError".into(),
         SecWebSocketSubProtocolError(e) => format!("SubProtocol:{e:?}"),
         other => format!("{other:?}"),
@@ -140,7 +140,7 @@ fn header_of(flags: &str, opc: &str, mask: &str) -> Result<FrameHeader, String> 
     Ok(h)
 }
 
-enum Op {
+pub enum Op {
     Read,
     Write(Message),
     Flush,
@@ -150,7 +150,7 @@ enum Op {
     SetBuf(usize, usize),
 }
 
-fn parse_usize_or_inf(s: &str) -> usize {
+pub fn parse_usize_or_inf(s: &str) -> usize {
     if s == "inf" {
         usize::MAX
     } else {
@@ -158,7 +158,7 @@ fn parse_usize_or_inf(s: &str) -> usize {
     }
 }
 
-fn op_of(s: &str) -> Result<Op, String> {
+pub fn op_of(s: &str) -> Result<Op, String> {
     let p: Vec<&str> = s.split(':').collect();
     Ok(match p.as_slice() {
         ["r"] => Op::Read,
@@ -183,7 +183,7 @@ fn op_of(s: &str) -> Result<Op, String> {
     })
 }
 
-fn list(s: &str) -> Vec<&str> {
+pub fn list(s: &str) -> Vec<&str> {
     if s == "-" || s.is_empty() {
         vec![]
     } else {
@@ -191,11 +191,61 @@ fn list(s: &str) -> Vec<&str> {
     }
 }
 
-fn opt_usize(s: &str) -> Option<usize> {
+pub fn opt_usize(s: &str) -> Option<usize> {
     if s == "none" {
         None
     } else {
         Some(s.parse().unwrap())
+    }
+}
+
+/// run socket ops on an established WebSocket; appends `res ev ev | res ev ...` to `out`
+pub fn run_ops_on(ws: &mut WebSocket<Script>, ops: Vec<Op>, mut upto: usize, out: &mut String, first: bool) {
+    for (i, op) in ops.into_iter().enumerate() {
+        let r = catch_unwind(AssertUnwindSafe(|| match op {
+            Op::Read => match ws.read() {
+                Ok(m) => message_s(&m),
+                Err(e) => error_s(&e),
+            },
+            Op::Write(m) => match ws.write(m) {
+                Ok(()) => "ok".into(),
+                Err(e) => error_s(&e),
+            },
+            Op::Flush => match ws.flush() {
+                Ok(()) => "ok".into(),
+                Err(e) => error_s(&e),
+            },
+            Op::Close(c) => match ws.close(c) {
+                Ok(()) => "ok".into(),
+                Err(e) => error_s(&e),
+            },
+            Op::CanRead => format!("{}", ws.can_read()),
+            Op::CanWrite => format!("{}", ws.can_write()),
+            Op::SetBuf(a, b) => {
+                ws.set_config(|c| {
+                    c.write_buffer_size = a;
+                    c.max_write_buffer_size = b;
+                });
+                "ok".into()
+            }
+        }));
+        if i > 0 || !first {
+            out.push_str(" | ");
+        }
+        let panicked = r.is_err();
+        match r {
+            Ok(s) => out.push_str(&s),
+            Err(_) => out.push_str("panic:rust"),
+        }
+        let log = &ws.get_ref().log;
+        for ev in &log[upto..] {
+            out.push(' ');
+            out.push_str(ev);
+        }
+        upto = log.len();
+        if panicked {
+            break;
+        }
     }
 }
 
@@ -230,58 +280,12 @@ fn run_socket(f: &[&str]) -> Result<(String, String), String> {
         Ok(ws) => ws,
         Err(_) => return Ok((model_line(f, None), "panic:config".into())),
     };
-    let mut upto = 0usize;
-    for (i, op) in ops.into_iter().enumerate() {
-        let r = catch_unwind(AssertUnwindSafe(|| match op {
-            Op::Read => match ws.read() {
-                Ok(m) => message_s(&m),
-                Err(e) => error_s(&e),
-            },
-            Op::Write(m) => match ws.write(m) {
-                Ok(()) => "ok".into(),
-                Err(e) => error_s(&e),
-            },
-            Op::Flush => match ws.flush() {
-                Ok(()) => "ok".into(),
-                Err(e) => error_s(&e),
-            },
-            Op::Close(c) => match ws.close(c) {
-                Ok(()) => "ok".into(),
-                Err(e) => error_s(&e),
-            },
-            Op::CanRead => format!("{}", ws.can_read()),
-            Op::CanWrite => format!("{}", ws.can_write()),
-            Op::SetBuf(a, b) => {
-                ws.set_config(|c| {
-                    c.write_buffer_size = a;
-                    c.max_write_buffer_size = b;
-                });
-                "ok".into()
-            }
-        }));
-        if i > 0 {
-            out.push_str(" | ");
-        }
-        let panicked = r.is_err();
-        match r {
-            Ok(s) => out.push_str(&s),
-            Err(_) => out.push_str("panic:rust"),
-        }
-        let log = &ws.get_ref().log;
-        for ev in &log[upto..] {
-            out.push(' ');
-            out.push_str(ev);
-        }
-        upto = log.len();
-        if panicked {
-            break;
-        }
-    }
+    run_ops_on(&mut ws, ops, 0, &mut out, true);
     let m = model_line(f, Some(ws.get_ref()));
     Ok((m, out))
 }
 
-fn join_or_dash(v: &[String]) -> String {
+pub fn join_or_dash(v: &[String]) -> String {
     if v.is_empty() {
         "-".into()
     } else {
